@@ -5,6 +5,7 @@
 #   0 property held on everything explored; 1 + "VIOLATION property=<id> replay=<path>";
 #   2 inconclusive (build failure, watchdog, harness error) - never a violation.
 set -u
+ORIG_PWD="$(pwd)"
 cd "$(dirname "$0")/harness" || exit 2
 export CARGO_NET_OFFLINE=true
 ID="${1:-}"; MODE="${2:-quick}"; ARG="${3:-}"
@@ -29,6 +30,7 @@ case "$MODE" in
     rc=$?
     ;;
   replay)
+    case "$ARG" in /*) ;; *) ARG="$ORIG_PWD/$ARG";; esac
     $BIN replay "$ARG"
     rc=$?
     ;;
